@@ -25,7 +25,7 @@ from harness.common import clist, cz
 PROPERTY = "C11"
 LEVEL = "proof"
 REQ = ["OV.Index.NumpySpec", "OV.Index.OnnxSlice", "OV.Index.ConverterIdx", "OV.Index.EagerIdx", "OV.Index.Corr",
-       "OV.Index.AdvSpec", "OV.Index.AdvCorr", "OV.Index.EagerFix"]
+       "OV.Index.AdvSpec", "OV.Index.AdvCorr", "OV.Index.EagerFix", "OV.Index.DynForms"]
 
 
 # ----------------------------------------------------------------------------- Coq literals
@@ -289,9 +289,10 @@ def process(ctx, runner, cases, stream, state):
 
 EVALS = ["np_agrees", "graph_agrees false", "graph_agrees true", "skel_agrees false", "skel_agrees true",
          "eager_agrees false", "eager_agrees true", "eskel_agrees false", "eskel_agrees true",
-         "eager_agrees_c true", "eskel_agrees_c true"]
+         "eager_agrees_c true", "eskel_agrees_c true", "graph_agrees_ns", "skel_agrees_ns"]
 # code variants per front end, in the order they are tried: name -> (result check, op check)
-VARIANTS = {"converter": [("pinned", "graph_agrees false", "skel_agrees false"), ("gather-axis-fix", "graph_agrees true", "skel_agrees true")],
+VARIANTS = {"converter": [("pinned", "graph_agrees false", "skel_agrees false"), ("gather-axis-fix", "graph_agrees true", "skel_agrees true"),
+                          ("gather-axis-fix+negative-step-two-slices", "graph_agrees_ns", "skel_agrees_ns")],
             "eager": [("pinned", "eager_agrees false", "eskel_agrees false"), ("gather-axis-fix", "eager_agrees true", "eskel_agrees true"),
                       ("gather-axis-fix+negative-start-clamp", "eager_agrees_c true", "eskel_agrees_c true")]}
 
@@ -558,8 +559,10 @@ def run(ctx):
     ctx.assume("dimensions fit int64 (d <= INT64_MAX); the operands the converter emits are int64 constants")
     ctx.assume("eager mode is run with a recording evaluator that delegates to onnxruntime through "
                "evaluator._prepare_model_and_inputs_for_eager with single-threaded sessions")
-    ctx.assume("Ellipsis, None/newaxis, boolean masks, tensor-valued indices of rank >= 3 and step 0 are outside the property's "
-               "quantifier and are not generated; rank-2 tensor indices are (stream adv-forms)")
+    ctx.assume("boolean mask TENSORS and tensor-valued indices of rank >= 3 are outside the property's quantifier and are not generated; "
+               "rank-2 tensor indices are (stream adv-forms); Ellipsis, None/newaxis, boolean / float / string literals are generated as near "
+               "misses (stream outside-forms: must fail or equal NumPy; NumPy itself is the specification there, plus the rank formula "
+               "DynForms.np_x_rank); step 0 is generated with tensor-valued steps (thorough) and as an attribute parameter")
     ctx.assume("NumPy's rule for combining advanced and basic indexing (broadcast of all advanced indices; block at the first advanced "
                "index when they are adjacent, in front otherwise) as transcribed in coq/Index/AdvSpec.v np_arr; agreement with NumPy is "
                "measured on every case of the adv-forms stream, good and bad forms alike")
@@ -589,6 +592,9 @@ def run(ctx):
         adv_cover = c11_adv.run(ctx, sys.modules[__name__], runner)
         state["adv_eager_variant"] = adv_cover.get("eager_variant")
         state["streams"]["adv-forms"] = adv_cover["cases"]
+        from harness import c11_dyn
+        dyn_cover = c11_dyn.run(ctx, sys.modules[__name__], runner, state)
+        state["streams"]["outside-forms"] = dyn_cover["outside_forms"]["cases"]
     finally:
         runner.close()
     n = state["n"]
@@ -617,7 +623,7 @@ def run(ctx):
               identity_form_refused=state["identity_refused"],
               outcomes={f"{a}:{b}:{c}": v for (a, b, c), v in sorted(oc.items())},
               different_tensor_by_class={f"{a}:{b}": v for (a, b), v in sorted(state["diff"].items())},
-              code_variant=variants, adv_forms=adv_cover, documented_forms=docs_cover)
+              code_variant=variants, adv_forms=adv_cover, documented_forms=docs_cover, dynamic_and_outside_forms=dyn_cover)
     if thorough:
         ctx.coqchk(["Props.C11"])
 
